@@ -107,3 +107,11 @@ _p('C16', ['r_visit'],
    not_decided='program-order of events across nested sequences as a whole (argued from the resumption discipline, not '
                'executed); absence of recursion is decided by R-NOREC')
 PROPERTIES['C06']['rules'] = ['r_edges', 'r_visit']
+
+_p('C04', ['r_flow'],
+   'Attribute flow through the entity records: each section parser and each section emitter is evaluated symbolically, '
+   'the record allocated at parse time is substituted into the wasm-encoder value built at emit time, and every output '
+   'field (limits, 64-bit/shared flags, page size, element/value types, mutability, module/field names, export kinds and '
+   'indices) must be fed by the same-named input field per the field map of wasm-encoder\'s reencoder; every section '
+   'entry must allocate exactly one record of its kind.',
+   not_decided='byte equality of data payloads beyond "the same vector flows"; behaviour of wasm-encoder itself')
